@@ -153,7 +153,7 @@ CORPUS = [
     # ignored for ever
     FORGE_HEAD + ["spdp-forge 1 P0 id=5", "ignore P0 #5", "discovered P0 participants", "spdp-forge 1 P0 id=5", "discovered P0 participants",
                   f"advance {SEC}", "spdp-forge 1 P0 id=5", "discovered P0 participants"],
-    # finding: the lease of a re-announcement is ignored (first 2 s, then 100 s: removed after 2 s of silence)
+    # D-spdp-1 (repaired; was: the lease of a re-announcement is ignored): first 2 s, then 100 s, 2 s of silence: still listed
     FORGE_HEAD + [f"spdp-forge 1 P0 id=5 lease={2 * SEC}", f"advance {SEC}", f"spdp-forge 1 P0 id=5 lease={100 * SEC}", f"advance {2 * SEC + 1}",
                   "discovered P0 participants"],
     # real participants: default period, lossy start, silent death, deletion
